@@ -31,6 +31,7 @@ pub struct Profile {
     pub repair: bool,
     /// Pratt operator tokens come from the ordinary token pool (conflicts possible; C10)
     pub pratt_shared_ops: bool,
+    pub choice_weight: u32,
 }
 
 impl Profile {
@@ -57,6 +58,7 @@ impl Profile {
             c11_shapes: false,
             repair: true,
             pratt_shared_ops: false,
+            choice_weight: 2,
         }
     }
     pub fn ebnf() -> Profile {
@@ -118,7 +120,7 @@ impl<'p, 'd> Builder<'p, 'd> {
 
     fn gen_regex(&mut self, rule: usize, n_rules: usize, depth: usize) -> Regex {
         // 0 = token (simplest)
-        let w: [u32; 9] = if depth == 0 { [6, 3, 0, 0, 0, 0, 0, 0, 0] } else { [4, 3, 5, 3, 2, 4, 0, 1, if self.p.choice { 2 } else { 0 }] };
+        let w: [u32; 9] = if depth == 0 { [6, 3, 0, 0, 0, 0, 0, 0, 0] } else { [4, 3, 5, 3, 2, 4, 0, 1, if self.p.choice { self.p.choice_weight } else { 0 }] };
         match self.d.weighted(&w) {
             0 => self.plain_tok(),
             1 => {
